@@ -14,26 +14,29 @@
 #ifndef PA_CAP
 #define PA_CAP 64
 #endif
-size_t pa_lsize[1024]; unsigned char pa_managed[1024]; int pa_over; unsigned pa_nrealloc;
-size_t pa_size_of(const void *p) { return pa_lsize[__CPROVER_POINTER_OBJECT(p) & 1023]; }
-int pa_is_managed(const void *p) { return p != NULL && pa_managed[__CPROVER_POINTER_OBJECT(p) & 1023]; }
+#ifndef PA_TAB
+#define PA_TAB 32        /* objects are numbered in allocation order; a harness with more objects raises the ENVBOUND assertion */
+#endif
+size_t pa_lsize[PA_TAB]; unsigned char pa_managed[PA_TAB]; int pa_over; unsigned pa_nrealloc;
+size_t pa_size_of(const void *p) { return pa_lsize[__CPROVER_POINTER_OBJECT(p) % PA_TAB]; }
+int pa_is_managed(const void *p) { return p != NULL && pa_managed[__CPROVER_POINTER_OBJECT(p) % PA_TAB]; }
 void *zmalloc(size_t size) {
     __CPROVER_assert(size <= PA_CAP, "ENVBOUND/zmalloc size within model capacity");
     if(size > PA_CAP) pa_over = 1;
     void *p = calloc(1, PA_CAP);
     __CPROVER_assume(p != NULL);
-    __CPROVER_assert(__CPROVER_POINTER_OBJECT(p) < 1024, "ENVBOUND/object number within model table");
-    pa_lsize[__CPROVER_POINTER_OBJECT(p) & 1023] = size;
-    pa_managed[__CPROVER_POINTER_OBJECT(p) & 1023] = 1;
+    __CPROVER_assert(__CPROVER_POINTER_OBJECT(p) < PA_TAB, "ENVBOUND/object number within model table");
+    pa_lsize[__CPROVER_POINTER_OBJECT(p) % PA_TAB] = size;
+    pa_managed[__CPROVER_POINTER_OBJECT(p) % PA_TAB] = 1;
     return p;
 }
 void *zrealloc(void *ptr, size_t size) {
-    if(size == 0) { if(ptr) { pa_managed[__CPROVER_POINTER_OBJECT(ptr) & 1023] = 0; free(ptr); } return NULL; }
+    if(size == 0) { if(ptr) { pa_managed[__CPROVER_POINTER_OBJECT(ptr) % PA_TAB] = 0; free(ptr); } return NULL; }
     if(ptr == NULL) return zmalloc(size);
     if(!pa_is_managed(ptr)) { void *n = realloc(ptr, size); __CPROVER_assume(n != NULL); return n; }
     __CPROVER_assert(__CPROVER_POINTER_OFFSET(ptr) == 0, "zrealloc of a pointer that is not the start of an allocation");
     __CPROVER_assert(size <= PA_CAP, "ENVBOUND/zrealloc size within model capacity");
     if(size > PA_CAP) pa_over = 1;
-    pa_lsize[__CPROVER_POINTER_OBJECT(ptr) & 1023] = size; pa_nrealloc++;
+    pa_lsize[__CPROVER_POINTER_OBJECT(ptr) % PA_TAB] = size; pa_nrealloc++;
     return ptr;
 }
